@@ -229,7 +229,7 @@ def b3(ctx):
         f = ctx.method('Cache', name)
         ok = False
         for p in ctx.paths(f, 'plain'):
-            calls = [e for e in p.trace if e.kind == 'CALL' and e.d['targets'][0].name == '_iter']
+            calls = [e for e in p.trace if e.kind == 'CALL' and e.d['targets'][0] is _iter_helper(ctx)]
             if len(calls) != 1:
                 continue
             c = calls[0]
@@ -244,7 +244,7 @@ def b3(ctx):
         obs.append(Ob('B3', 'Cache.%s/primed-%s' % (name, 'ascending' if asc else 'descending'), ok and primed,
                       '%s must create _iter(ascending=%s), advance it once (so the row-id snapshot is taken at call '
                       'time) and return it' % (name, asc), f.loc()))
-    g = ctx.method('Cache', '_iter')
+    g = _iter_helper(ctx)
     ok, n = True, 0
     for p in ctx.paths(g, 'plain'):
         ys = [e for e in p.trace if e.kind == 'YIELD']
@@ -310,10 +310,18 @@ def b5(ctx):
         if isinstance(node, ast.Name) and isinstance(consts.get(node.id), int):
             return consts[node.id]
         return None
+    mod_consts = {}
+    for name, expr in ctx.prog.modules['core'].consts.items():
+        try:
+            v = ctx.fold(expr, 'core')
+        except ValueError:
+            continue
+        if isinstance(v, (str, int)) and not isinstance(v, bool):
+            mod_consts[name] = v
     for f in ctx.prog.all_funcs():
         if f.module != 'core':
             continue
-        consts = {}
+        consts = dict(mod_consts)
         for n in walk_shallow(f.node):
             if isinstance(n, ast.Assign) and len(n.targets) == 1 and isinstance(n.targets[0], ast.Name):
                 if isinstance(n.value, ast.Constant) and isinstance(n.value.value, (str, int)):
@@ -566,6 +574,12 @@ def b6(ctx):
                'reset(key, value) skips the UPDATE of the Settings table on some path although update is requested '
                '(e.g. when the per-handle cached attribute already equals the value): a setting changed by another '
                'handle in between is silently kept', f.loc(), wit)]
+
+
+def _iter_helper(ctx):
+    """The private generator behind Cache.__iter__ / __reversed__."""
+    from .framework import private_callee
+    return private_callee(ctx, 'Cache', ('__iter__', '__reversed__'), pick=lambda g: g.is_generator)
 
 
 # ---------------------------------------------------------------------- I3
